@@ -30,12 +30,12 @@ theorem C12_mismatch (o : Opts) (a : Archive) (files : List Rel) (doc : Rel) (re
     (hf : a.files = .ok files) (hd : filesOfType files [lit "officeDocument"] = doc :: rest)
     (hc : partCollector o a files (numId2Attrs a) doc = .ok dc)
     (hn : filesOfType files [lit "comments"] = cf :: crest) (hr : a.readXml cf.path = .ok croot)
-    (hne : dc.ranges.length ≠ croot.kids.length) :
+    (hne : dc.ranges.length ≠ (croot.kids.filter Xml.isElem).length) :
     comments o a = .ok [] := by
   unfold comments
   simp only [hf, ok_bind, hd, hc, hn, hr]
-  have : (dc.ranges.length != croot.kids.length) = true := by simpa using hne
-  show (if (dc.ranges.length != croot.kids.length) = true then pure [] else _) = _
+  have : (dc.ranges.length != (croot.kids.filter Xml.isElem).length) = true := by simpa using hne
+  show (if (dc.ranges.length != (croot.kids.filter Xml.isElem).length) = true then pure [] else _) = _
   rw [if_pos this]; rfl
 
 /-- what a start marker records -/
